@@ -14,10 +14,11 @@ LEVEL_TEXT = ("Theorems c15_sockread_chunking / c15_chunking_independent (the re
               "concatenated byte stream), c15_frames_exact / c15_valid_streams_ok (every sequence of valid frames, in any chunking, "
               "is handed on exactly, in order, with no error), c15_no_oob (no out-of-bounds write into msg_buf/tag/val for ANY "
               "stream, with extract_element as repaired by d48d8ce), c15_long_field_error (over-long tags/values: IllegalMessage, "
-              "nothing handed on), c15_bad_*_partial (wrong BeginString, zero / non-numeric / oversized BodyLength under explicit "
-              "boolean hypotheses: error, nothing handed on), c15_overflow_orig_refuted (the unrepaired extract_element overflowed) "
-              "and c15_*_refuted (witnesses where the faithful model still violates the property: 32-bit wrap of BodyLength, "
-              "first-character-only tag tests, non-digit first BodyLength character, NUL inside BeginString).")
+              "nothing handed on), c15_bad_tag_partial / c15_nonnumeric_bodylength_partial (wrong tags, a non-digit anywhere in "
+              "BodyLength, with the tests of cb750d0/b287a2f), c15_bad_beginstring_partial (remaining hypothesis: different as a C "
+              "string), c15_bad_bodylength_partial (remaining hypothesis: zero/oversized as read mod 2^32): error, nothing handed "
+              "on; c15_*_orig_refuted (the unrepaired code overflowed / accepted 9=:, 88=, 93=) and c15_bodylength_wrap_refuted, "
+              "c15_beginstring_nul_refuted (witnesses where the faithful model still violates the property).")
 LEVEL_NOTE = ("Trusted: Coq kernel, extraction, the hand transcription (checked by the correspondence run), vsock.hpp's "
               "receiveBytes (one call returns a prefix of one chunk), ASan detecting the first write past tag[32]/val[2048], "
               "char is signed, the kind of exception is read from the text FIXReader::execute logs. Actual memory safety of the "
